@@ -274,9 +274,24 @@ def engine_specs() -> list[dict]:
     return out
 
 
+def init_specs() -> list[dict]:
+    """Sprouted population demes whose initial sample (sample_normal around the seed, rejection of points outside
+    the box) is as wide as the box, in 4-6 dimensions: almost every draw is rejected (C01 / C07 on the constructor path)."""
+    out = []
+    n = 0
+    for child in ({"engine": "SEA", "pop": 6, "gens": 1}, {"engine": "DE", "pop": 6, "gens": 1}, {"engine": "SHADE", "pop": 6, "gens": 1, "mem": 2}):
+        for dim, wide, box in ((5, 1.0, "unit"), (6, 0.8, "sym"), (4, 1.5, "decimal")):
+            n += 1
+            out.append({"name": f"init{n}", "seed": 800 + n, "dim": dim, "box": box, "fn": ["sphere", "multi", "linear"][n % 3],
+                        "maximize": n % 4 == 0, "gsc": {"kind": "MetaepochLimit", "n": 4},
+                        "levels": [{"engine": "DE", "pop": 10, "gens": 1}, dict(child, sstd_wide=wide, lsc={"kind": "MetaepochLimit", "n": 2})],
+                        "sprout": {"kind": "simple", "far": 0.01, "limit": 3}})
+    return out
+
+
 def gen_specs(seed: int, n_random: int, tier: str = "quick") -> list[dict]:
     r = random.Random(seed)
-    specs = repo_test_specs() + sweep_specs(tier) + lifecycle_specs() + engine_specs()
+    specs = repo_test_specs() + sweep_specs(tier) + lifecycle_specs() + engine_specs() + init_specs()
     for i in range(n_random):
         specs.append(random_spec(r, i))
     return specs
